@@ -22,7 +22,7 @@ func init() {
 				"dominated by a newScope of the same function (or is a rebinding under `_, ok := m[k]; ok`), and helpers that declare at depth 0 are only called below a push; (C07.ctx) every change of " +
 				"Runtime.context / Runtime.content / the output Writer is preceded by a load into a local and followed on every normal path by a store of that local back (or a deferred restore); " +
 				"(C07.blocks) block tables are only installed into a freshly pushed scope; (C07.order) identifier lookup consults scope chain → Set globals → built-ins in that order; (C07.set) `=` " +
-				"walks the scope chain to the end and fails after it; (C07.alias) no Range method returns a view of ranger state that the next Range call mutates.",
+				"walks the scope chain to the end and fails after it; (C07.alias) no Range method returns a view of ranger state that the next Range call mutates. (C07.set, continued) setValue leaves a scope for its parent only where its presence test for the name is known to have failed.",
 			NotDecided:  "unwinding by panic (C10, C13); the values stored; shadowing between a caller-supplied VarMap and globals beyond the lookup order; user-defined Rangers.",
 			Assumptions: []string{"AST nodes, Template and Set are immutable during execution (C10.ast, C11.frozen): facts about their fields survive calls"},
 			Trusted:     commonTrusted,
